@@ -17,6 +17,14 @@ const (
 // ErrInjected is the private sentinel error.
 var ErrInjected = errors.New("entropy: injected source failure")
 
+// Stall is the panic value the device raises when one caller keeps reading
+// after StallLimit consecutive reads that delivered no byte: the caller is
+// spinning on a dead or silent source instead of failing.
+type Stall struct{ Reads int }
+
+// StallLimit bounds consecutive empty reads served to one task.
+const StallLimit = 256
+
 // Event fires when the stream position reaches Off (reads are cut at Off).
 type Event struct {
 	Off  int    `json:"off"`
@@ -54,11 +62,12 @@ type Device struct {
 	Cur   func() int // current task id
 	Yield func()     // scheduling point before each read is served
 	Fired map[string]int
+	empty map[int]int // consecutive empty reads per task
 }
 
 // NewDevice returns a device at stream position 0.
 func NewDevice(s Script) *Device {
-	return &Device{S: s, Fired: map[string]int{}, Cur: func() int { return 0 }}
+	return &Device{S: s, Fired: map[string]int{}, Cur: func() int { return 0 }, empty: map[int]int{}}
 }
 
 func errOf(name string) error {
@@ -116,6 +125,15 @@ func (d *Device) Read(p []byte) (int, error) {
 		if d.ev < len(d.S.Events) {
 			n = min(n, d.S.Events[d.ev].Off-d.pos)
 		}
+	}
+	if n == 0 && want > 0 {
+		d.empty[task]++
+		if d.empty[task] > StallLimit {
+			d.empty[task] = 0
+			panic(Stall{StallLimit})
+		}
+	} else {
+		d.empty[task] = 0
 	}
 	copy(p, d.S.Stream[d.pos:d.pos+n])
 	d.Log = append(d.Log, Rec{Task: task, Off: d.pos, Want: want, N: n, Err: err, Data: append([]byte(nil), d.S.Stream[d.pos:d.pos+n]...)})
